@@ -70,6 +70,16 @@ template<class D, class E> void c16_ring_ops(const D& F, E& r, const E& a, const
 // in-place re-parameterisation members (instantiated only when used)
 template<class D> void c16_mutators(D& F) { std::istringstream is("(z, 7)"); F.read(is); }
 
+// Extension<Modular<double>> cannot be instantiated explicitly (its (p, e) constructor builds BaseField_t(p, k)): by use
+template<class X> void c16_ext_ops(const X& a) {
+    typename X::Element r, s, t; Integer i; int64_t l = 0;
+    a.init(r); a.init(r, 5); a.init(r, Integer(5)); a.assign(r, s); a.mul(r, s, t); a.add(r, s, t); a.sub(r, s, t); a.neg(r, s); a.inv(r, s); a.div(r, s, t);
+    a.axpy(r, s, t, s); a.maxpy(r, s, t, s); a.axmy(r, s, t, s); a.addin(r, s); a.subin(r, s); a.mulin(r, s); a.divin(r, s); a.negin(r); a.invin(r); a.axpyin(r, s, t); a.maxpyin(r, s, t); a.axmyin(r, s, t);
+    a.convert(i, r); a.isZero(r); a.isOne(r); a.isMOne(r); a.isUnit(r); a.areEqual(r, s); a.write(std::cout, r); a.write(std::cout);
+    a.characteristic(); a.characteristic(i); a.characteristic(l); a.cardinality(); a.cardinality(i); a.residu(); a.exponent(); a.order(); a.extension_type();
+    a.irreducible(); a.irreducible(r); a.base_field(); a.polynomial_domain();
+}
+
 void c16_uses() {
     { Modular<int32_t> a(7); c16_mutators(a); } { Modular<uint32_t> a(7); c16_mutators(a); } { Modular<int64_t> a(7); c16_mutators(a); }
     { Modular<uint64_t> a(7); c16_mutators(a); } { Modular<float> a(7); c16_mutators(a); } { Modular<double> a(7); c16_mutators(a); }
@@ -107,7 +117,7 @@ void c16_uses() {
     { Extension<GFqDom<int64_t> > a(3, 8), b(5, 8); c16_special(a, b); Extension<GFqDom<int64_t> >::Element r, s, t;
       a.init(r, 5); a.init(r, Integer(5)); a.mul(r, s, t); a.add(r, s, t); a.inv(r, s); a.div(r, s, t); a.axpy(r, s, t, s);
       Integer i; a.convert(i, r); a.isZero(r); a.areEqual(r, s); a.write(std::cout, r); GivRandom g; a.random(g, r); }
-    { Extension<Modular<double> > a(Modular<double>(7), 2), b(Modular<double>(11), 2); c16_special(a, b); }
+    { Extension<Modular<double> > a(Modular<double>(7), 2), b(Modular<double>(11), 2); c16_special(a, b); c16_ext_ops(a); }
     { Modular<double> F(7); Poly1Dom<Modular<double>, Dense> a(F, "X"), b(F, "Y"); c16_special(a, b);
       Poly1Dom<Modular<double>, Dense>::Element P, Q, R; a.init(P, Degree(2), 1.0); a.mul(R, P, Q); a.add(R, P, Q);
       a.divmod(Q, R, P, P); a.gcd(R, P, Q); Degree d; a.degree(d, P); a.write(std::cout, P); GivRandom g; a.random(g, P, Degree(3)); }
